@@ -66,7 +66,36 @@ def recheck(sid):
         sh("rm -rf /tmp/seeded_replays_%s" % sid)
 
 
+def adopt(wt, sid, prop):
+    """--new <agent worktree> <id> <property>: take patch/demo/notes of a fresh sub-agent result into
+    /verif/seeded/<id>/ (without touching /repo) so that it can be evaluated like the others"""
+    import shutil
+    dst = os.path.join(HERE, "seeded", sid)
+    os.makedirs(dst, exist_ok=True)
+    src = os.path.join(wt, "_seeded")
+    for f in os.listdir(src):
+        if f.endswith((".diff", ".py", ".md")):
+            shutil.copy(os.path.join(src, f), os.path.join(dst, f))
+    demos = [f for f in os.listdir(dst) if f.endswith(".py")]
+    demo = sorted(demos, key=lambda f: (not f.startswith(("demo", "test_demo")), f))[0]
+    # demonstrations sometimes assert that they run from the agent's own worktree: neutralise that
+    text = open(os.path.join(dst, demo)).read()
+    lines = []
+    for ln in text.splitlines(True):
+        if ln.lstrip().startswith("assert") and "__file__" in ln and "wt_s" in ln:
+            ln = ln[:len(ln) - len(ln.lstrip())] + "pass  # (path assertion of the original demo removed so that it runs from any checkout)\n"
+        lines.append(ln)
+    open(os.path.join(dst, demo), "w").write("".join(lines))
+    patch = open(os.path.join(dst, "patch.diff")).read()
+    meta = {"id": sid, "property": prop, "demo": demo,
+            "files_touched": sorted({ln[6:] for ln in patch.splitlines() if ln.startswith("+++ b/")})}
+    json.dump(meta, open(os.path.join(dst, "meta.json"), "w"), indent=1)
+
+
 def main():
+    if len(sys.argv) >= 5 and sys.argv[1] == "--new":
+        adopt(sys.argv[2], sys.argv[3], sys.argv[4])
+        sys.argv = [sys.argv[0], sys.argv[3]]
     ids = sys.argv[1:] or sorted(os.listdir(os.path.join(HERE, "seeded")))
     for sid in ids:
         if not os.path.isdir(os.path.join(HERE, "seeded", sid)):
